@@ -5,11 +5,13 @@ import GeoVerif.Driver.Box
 import GeoVerif.Driver.Grid
 import GeoVerif.Driver.Survey
 import GeoVerif.Driver.Codec
+import GeoVerif.Driver.Ws
 open Lean GeoVerif.Driver
 
 structure DSt where
   concat : ConcatD.St := []
   geom : GeomD.St := GeomD.init
+  ws : WsD.St := WsD.init
 
 def stepLine (st : DSt) (line : String) : DSt × String :=
   match Json.parse line with
@@ -23,6 +25,7 @@ def stepLine (st : DSt) (line : String) : DSt × String :=
     | "grid" => (st, (GridD.handle j).compress)
     | "survey" => (st, (SurveyD.handle j).compress)
     | "codec" => (st, (CodecD.handle j).compress)
+    | "ws" => let (s, o) := WsD.handle st.ws j; ({ st with ws := s }, o.compress)
     | _ => (st, "\"bad-model\"")
 
 partial def loop (h : IO.FS.Stream) (out : IO.FS.Stream) (st : DSt) : IO Unit := do
